@@ -199,7 +199,7 @@ static int run_one (eng_t *e, MIR_item_t fi, const char *sig, bits_t *args, bits
   char rcls = us[1];
   int sg;
   in_call = 1;
-  alarm (10);
+  alarm (4);
   if ((sg = sigsetjmp (crash_env, 1)) != 0) { in_call = 0; alarm (0); return sg; }
   if (e->kind == E_INTERP) {
     MIR_val_t vals[8], r[2];
